@@ -197,13 +197,15 @@ pub struct Sim {
     pub core: crate::coreview::CoreView,
     pub mon: crate::monitors::Monitors,
     last_client_sent: Vec<(u32, ToWorkerMessage)>,
+    sched_before: Option<tako::verif::server::CoreSnapshot>,
     completed: BTreeMap<u32, u32>,
     known_jobs: Vec<u32>,
     open_jobs: Vec<u32>,
     pub panicked: Option<String>,
     /// human-readable log of world actions (debugging / replay files)
     pub log: Vec<String>,
-    /// generator profile: 0 basic, 1 prefill-heavy, 2 multi-node, 3 resources/variants/strict policies
+    /// generator profile: 0 basic, 1 prefill-heavy, 2 multi-node, 3 resources/variants/strict policies,
+    /// 4 worker time limits and time requests (incl. variants with different time requests)
     pub profile: u64,
 }
 
@@ -291,6 +293,18 @@ pub fn gen_rq(rng: &mut Rng, profile: u64) -> ResourceRequestVariants {
             4 => ResourceRequestVariants::new_simple(rq(0, vec![cpu(AllocationRequest::Compact(ResourceAmount::new(1, 5000)))])),
             _ => cpu_rq(1, 0),
         },
+        4 => {
+            let t = |rng: &mut Rng| std::time::Duration::from_secs(*rng.pick(&[0u64, 0, 600, 3600]));
+            let mut a = rq(0, vec![cpu(AllocationRequest::Compact(ResourceAmount::new_units(rng.range(1, 2) as u32)))]);
+            a.min_time = t(rng);
+            if rng.chance(1, 2) {
+                let mut b = rq(0, vec![cpu(AllocationRequest::Compact(ResourceAmount::new_units(1))), gpu(1)]);
+                b.min_time = t(rng);
+                if rng.chance(1, 2) { ResourceRequestVariants::new(smallvec![a, b]) } else { ResourceRequestVariants::new(smallvec![b, a]) }
+            } else {
+                ResourceRequestVariants::new_simple(a)
+            }
+        }
         _ => cpu_rq(rng.range(1, 2) as u32, 0),
     }
 }
@@ -301,6 +315,16 @@ pub fn gen_worker_resources(rng: &mut Rng, profile: u64) -> (ResourceDescriptor,
         1 => {
             let c = rng.range(1, 2) as u32;
             (ResourceDescriptor::simple_cpus(c), vec![c as u64 * 10_000])
+        }
+        4 => {
+            let c = rng.range(2, 4) as u32;
+            let mut items = vec![ResourceDescriptorItem { name: "cpus".to_string(), kind: ResourceDescriptorKind::regular_sockets(1, c) }];
+            let mut totals = vec![c as u64 * 10_000];
+            if rng.chance(2, 3) {
+                items.push(ResourceDescriptorItem::range("gpus", 0, 0));
+                totals.push(10_000);
+            }
+            (ResourceDescriptor::new(items, Default::default()), totals)
         }
         3 => {
             let sockets = rng.range(1, 2) as u32;
@@ -333,7 +357,7 @@ impl Sim {
     pub fn new(seed: u64) -> Sim {
         let world = World::new(&WorldConfig { prefill_reserve: 1, prefill_max: 1, journal: false });
         let mut rng = Rng::new(seed);
-        let profile = rng.below(4);
+        let profile = rng.below(5);
         Sim {
             world,
             profile,
@@ -342,6 +366,7 @@ impl Sim {
             core: Default::default(),
             mon: Default::default(),
             last_client_sent: Vec::new(),
+            sched_before: None,
             completed: Default::default(),
             known_jobs: vec![],
             open_jobs: vec![],
@@ -406,12 +431,15 @@ impl Sim {
     fn core_flush(&mut self, mut ops: Vec<String>, cbs: &[Callback]) {
         let recs = tako::verif::sched::take();
         self.mon.records(&recs);
+        if let Some(before) = self.sched_before.take() {
+            self.mon.placement(&recs, &before, self.world.now_ms);
+        }
         ops.extend(crate::coreview::record_ops(&recs));
         if recs.iter().any(|r| matches!(r, tako::verif::sched::Record::Sn { .. } | tako::verif::sched::Record::Mn { .. } | tako::verif::sched::Record::PrefillOrder { .. }))
             || ops.iter().any(|o| o == "sched")
         {
             ops.retain(|o| o != "sched");
-            ops.push(crate::coreview::schedule_op(&recs));
+            ops.push(crate::coreview::schedule_op(&recs, self.world.now_ms));
         }
         let sent = self.world.take_sent();
         if ops.is_empty() {
@@ -814,7 +842,8 @@ impl Sim {
             "default"
         };
         let next = WorkerId::new(self.world.server.worker_counter() + 1);
-        let mut cfg = worker_config(next, 1, group, None);
+        let limit = if self.profile == 4 { *self.rng.pick(&[None, Some(60_000u64), Some(1_800_000), Some(1_800_000)]) } else { None };
+        let mut cfg = worker_config(next, 1, group, limit);
         cfg.resources = desc;
         self.do_add_worker(cfg);
     }
@@ -822,6 +851,10 @@ impl Sim {
     pub fn do_add_worker(&mut self, cfg: WorkerConfiguration) {
         let next = WorkerId::new(self.world.server.worker_counter() + 1);
         let group = cfg.group.clone();
+        let term = cfg.time_limit.map(|d| (self.world.now_ms + d.as_millis() as u64).to_string()).unwrap_or("-".to_string());
+        if let Some(d) = cfg.time_limit {
+            self.mon.worker_term.insert(next.as_num(), self.world.now_ms + d.as_millis() as u64);
+        }
         self.act_line(format!("add_worker {}", serde_json::to_string(&cfg).unwrap()));
         self.log.push(format!("add_worker group={group}"));
         self.guarded(|s| {
@@ -836,7 +869,7 @@ impl Sim {
             .find(|w| w.id == next.as_num())
             .map(|w| list(w.total.iter()))
             .unwrap_or("-".into());
-        let op = format!("wnew {} tot={} g={} term=-", next.as_num(), tot, group);
+        let op = format!("wnew {} tot={} g={} term={}", next.as_num(), tot, group, term);
         self.flush_callbacks(vec![op]);
         if let Some(p) = &self.panicked {
             let l = format!("mon FAIL c09.panic {} {}", panic_site(p), p.replace('\n', " "));
@@ -875,6 +908,7 @@ impl Sim {
     pub fn act_schedule(&mut self) {
         self.act_line("schedule".to_string());
         self.world.now_ms += 10;
+        self.sched_before = Some(self.world.server.core_snapshot());
         self.log.push("schedule".to_string());
         self.world_action(vec!["sched".to_string()], |s| {
             s.world.schedule();
@@ -980,6 +1014,7 @@ impl Sim {
     /// the rest check of C02 (logged as an action so that a replay evaluates it at the same point)
     pub fn do_rest_check(&mut self) {
         self.act_line("rest_check".to_string());
+        self.mon.now_ms = self.world.now_ms;
         let jobs = snapshot_jobs(&self.world.state_ref);
         let snap = self.world.server.core_snapshot();
         let completed = self.completed.clone();
